@@ -222,6 +222,7 @@ type program struct {
 	DoubleStop      bool       `json:"double_stop"`
 	KeepAlive       bool       `json:"keepalive_traffic"` // a background tube keeps the muxers from idling out
 	CloseDuringInit bool       `json:"close_during_init"`
+	InitCloseLag    int        `json:"init_close_lag,omitempty"` // 1-6: scheduler turns; more: microseconds
 	// tubes requested around the moment Stop is called on that side (never
 	// closed by the harness: after Stop returned nothing may be left of them)
 	LateCreate []lateCreate `json:"late_create,omitempty"`
@@ -317,7 +318,8 @@ func genProgram(rng *vh.Rand) program {
 		p.Net.DupTrain = rng.Pick(0, 0, 12, 45)
 	}
 	p.DoubleStop = rng.Chance(0.3)
-	p.CloseDuringInit = rng.Chance(0.2)
+	p.CloseDuringInit = rng.Chance(0.25)
+	p.InitCloseLag = rng.Pick(0, 0, 1, 2, 3, 4, 5, 6, 10, 100, 1000)
 	p.Strength = rng.Pick(0, 20, 40, 60)
 	for k := rng.Pick(0, 0, 1, 2, 3); k > 0; k-- {
 		p.LateCreate = append(p.LateCreate, lateCreate{Side: rng.Intn(2), DeltaUs: rng.Pick(-2000, -100, -1, 0, 1, 50, 300, 1000, 5000, 400000), Reliable: rng.Chance(0.4)})
@@ -579,7 +581,11 @@ func slowSenderCloseRun(r *vh.Runner, c *vh.Case, i int) {
 	if rng.Bool() {
 		first, second = b, a
 	}
-	ok := call("Tube.Close", func() { first.Close(); time.Sleep(time.Duration(rng.Pick(0, 2, 20, 20)) * time.Millisecond); second.Close() }) &&
+	ok := call("Tube.Close", func() {
+		first.Close()
+		time.Sleep(time.Duration(rng.Pick(0, 2, 20, 20)) * time.Millisecond)
+		second.Close()
+	}) &&
 		call("Tube.WaitForClose", func() { a.WaitForClose(); b.WaitForClose() })
 	if ok {
 		call("Muxer.Stop", func() {
@@ -726,6 +732,17 @@ func runProgram(r *vh.Runner, c *vh.Case, i int, prog program, realTime bool) {
 		}
 		if prog.CloseDuringInit && t == 0 {
 			// Close racing the initiation handshake; the acceptor may or may not ever see the tube
+			// (at once, or a few scheduler turns or microseconds later, when the
+			// peer's response may just have been processed)
+			switch prog.InitCloseLag {
+			case 0:
+			case 1, 2, 3, 4, 5, 6:
+				for k := 0; k < prog.InitCloseLag; k++ {
+					runtime.Gosched()
+				}
+			default:
+				time.Sleep(time.Duration(prog.InitCloseLag) * time.Microsecond)
+			}
 			cl := tr.begin("A", "Tube.Close(during-init)")
 			ta.Close()
 			tr.end(cl)
